@@ -457,6 +457,46 @@ theorem decCodec_printer : decCodec.Printer decQ :=
       simp [decCodec, decQ, this]
     rdN_fmtN := fun n => by simp [decCodec, Nat.toNat?_repr] }
 
+/-- `operator<<` with `precision(p)` and `istringstream >>` on doubles, decomposed into the two roundings they
+    perform.  Printing is rounding to a decimal numeral of `p` significant digits (`D x : Dec`) followed by its exact
+    rendering (`shw`); reading is exact parsing followed by rounding to the nearest double (`N d`).  The hypotheses
+    about the C++ stream (glibc `printf("%.{p}g")` / `strtod`, both correctly rounding) are exactly these fields:
+    * `fmt_eq`, `rd_show` — the decomposition (the rendering is read back exactly);
+    * `stable` — printing the number that was read back gives the same numeral.  For IEEE doubles: `p ≥ 17` because
+      then `N (D x) = x` (17 significant digits identify a double — `DecimalStream.exact` below); `p ≤ 15` because every
+      numeral of at most 15 digits survives decimal → double → decimal; `p = 16` (what gama-g3 uses for the dump) because
+      either the numeral `D x` is nearer to `x` than half a unit in the last place of `x` (then `N (D x) = x`), or the doubles
+      are locally denser than the 16-digit numerals and the double nearest to `D x` is within half a numeral step of
+      `D x`.  With 16 digits `N ∘ D` is a projection that is *not* the identity (≤ 1 ulp: relative 2.2e-16).
+    The `adj` dump stream of the check tests `rd (fmt x)` bit for bit against `x` on the real tool for both precisions
+    (counts `dump16_*` in the evidence). -/
+structure DecimalStream (c : Codec K S) {Dec : Type} (D : K → Dec) (N : Dec → K) (shw : Dec → S) : Prop where
+  fmt_eq : ∀ x, c.fmtF x = shw (D x)
+  rd_show : ∀ d, c.rdF (shw d) = some (N d)
+  stable : ∀ x, D (N (D x)) = D x
+  rdN_fmtN : ∀ n, c.rdN (c.fmtN n) = some n
+
+/-- such a stream is a printer in the sense of the round-trip theorem, with `q = N ∘ D` (round to `p` digits, then to
+    the nearest double), and `q` is a projection -/
+theorem DecimalStream.printer {c : Codec K S} {Dec : Type} {D : K → Dec} {N : Dec → K} {shw : Dec → S}
+    (h : DecimalStream c D N shw) : c.Printer (N ∘ D) ∧ ∀ x, (N ∘ D) ((N ∘ D) x) = (N ∘ D) x :=
+  ⟨{ rdF_fmtF := fun x => by rw [h.fmt_eq, h.rd_show]; rfl
+     fmtF_q := fun x => by rw [h.fmt_eq, h.fmt_eq]; exact congrArg shw (h.stable x)
+     rdN_fmtN := h.rdN_fmtN },
+   fun x => congrArg N (h.stable x)⟩
+
+/-- with enough digits (`precision(17)` on IEEE doubles: `N (D x) = x`) the stream is exact -/
+theorem DecimalStream.exact {c : Codec K S} {Dec : Type} {D : K → Dec} {N : Dec → K} {shw : Dec → S}
+    (h : DecimalStream c D N shw) (h17 : ∀ x, N (D x) = x) : c.Lawful :=
+  ⟨fun x => by rw [h.fmt_eq, h.rd_show, h17], h.rdN_fmtN⟩
+
+/-- the three-decimal printer of the examples is such a stream: numerals are the counts of 10⁻³ -/
+theorem decCodec_stream : DecimalStream decCodec (fun n => (n + 9) / 10) (· * 10) Nat.repr :=
+  { fmt_eq := fun _ => rfl
+    rd_show := fun d => by simp [decCodec, Nat.toNat?_repr]
+    stable := fun x => by show ((x + 9) / 10 * 10 + 9) / 10 = (x + 9) / 10; omega
+    rdN_fmtN := fun n => by simp [decCodec, Nat.toNat?_repr] }
+
 /-- data and codec of the non-vacuity example in `Props/C19.lean` -/
 def exampleCodec : Codec Nat Nat := ⟨id, some, id, some⟩
 def exampleData : AdjData Nat :=
